@@ -31,6 +31,7 @@ import (
 	"net/url"
 	"runtime"
 	"runtime/debug"
+	"sync"
 	"sync/atomic"
 	"time"
 
@@ -82,6 +83,13 @@ type Service struct {
 	// Per-endpoint connection pools and circuit breakers
 	endpointPools   xsync.Map[string, *connectionPool]
 	circuitBreakers xsync.Map[string, *circuitBreaker]
+
+	// mapWriteMu serialises writers of the two maps above. They are held by value, i.e. as
+	// copies of what xsync.NewMap returned, and a copied xsync.Map's resize condition variable
+	// still points at the original's mutex: a writer that has to wait for another writer's
+	// resize dies with "sync: unlock of unlocked mutex". With one writer at a time nobody ever
+	// waits for a resize. Reads stay lock-free.
+	mapWriteMu sync.Mutex
 }
 
 // connectionPool isolates HTTP transport instances per endpoint
@@ -260,7 +268,9 @@ func (s *Service) getOrCreateEndpointPool(endpoint string) *connectionPool {
 		healthy:   1,
 	}
 
+	s.mapWriteMu.Lock()
 	actual, _ := s.endpointPools.LoadOrStore(endpoint, newPool)
+	s.mapWriteMu.Unlock()
 	return actual
 }
 
@@ -275,7 +285,9 @@ func (s *Service) GetCircuitBreaker(endpoint string) *circuitBreaker {
 		state:     0, // closed
 	}
 
+	s.mapWriteMu.Lock()
 	actual, _ := s.circuitBreakers.LoadOrStore(endpoint, newCB)
+	s.mapWriteMu.Unlock()
 	return actual
 }
 
@@ -763,6 +775,9 @@ func (s *Service) cleanupUnusedResources() {
 	now := time.Now().UnixNano()
 	staleThreshold := int64(5 * time.Minute)
 
+	s.mapWriteMu.Lock()
+	defer s.mapWriteMu.Unlock()
+
 	// Cleanup unused endpoint pools
 	var poolsRemoved int
 	s.endpointPools.Range(func(endpoint string, pool *connectionPool) bool {
@@ -819,8 +834,10 @@ func (s *Service) Cleanup() {
 		return true
 	})
 
+	s.mapWriteMu.Lock()
 	s.endpointPools.Clear()
 	s.circuitBreakers.Clear()
+	s.mapWriteMu.Unlock()
 
 	s.BaseProxyComponents.Shutdown()
 
